@@ -311,6 +311,7 @@ where
     // which blob is active is only well-defined at a quiescent point (a rotation in flight may
     // replace the active blob while close() waits for the lock): settle for half of the closes
     ctx.active_at_close.set(None);
+    *ctx.served_at_close.borrow_mut() = storage.records_count_detailed().await.iter().map(|x| x.0).collect();
     let pick = crate::rng::mix_all(&[ctx.plan.sched.seed, 21, ctx.world.seq()]) % 2 == 0;
     if pick && settle(ctx).await {
         let has = storage.has_active_blob().await;
